@@ -36,11 +36,14 @@ Section Crash.
   | SReturn (i : Z)                  (* a synchronisation of i has returned to its caller *)
   | SReopen                          (* the process is gone; a new one opens the file in write mode:
                                         read_from_datastore rebuilds an Individual from every committed row *)
-  | SNew (i : Z) (v : list jv).      (* Individual(v) is created with id i (ids restart in a new process, so i may
-                                        be the id of an older individual: the model keeps one object per id, the newest) *)
+  | SNew (i : Z) (v : list jv)       (* Individual(v) is created with id i (ids restart in a new process, so i may
+                                        also be the id of an individual reloaded from the file: see c_old) *)
+  | SExecOld (c i : Z).              (* execute(upsert, ..) for the individual that was *reloaded* from row i *)
 
   Record cstate := {
-    c_mem : Z -> individual;               (* the Python objects *)
+    c_mem : Z -> individual;               (* the Python objects created by this process, by id *)
+    c_old : Z -> option individual;        (* the objects rebuilt from the rows when the file was re-opened, by id
+                                              (a new individual may get the id of one of them: two objects, one id) *)
     c_pend : Z -> list (Z * jv);           (* statements executed but not committed, per connection *)
     c_db : store;                          (* the committed table: what a crash leaves behind *)
     c_synced : list Z;                     (* ghost: ids executed on a connection that has committed since *)
@@ -84,44 +87,51 @@ Section Crash.
   Definition do_step (st : cstate) (x : step) : cstate :=
     match x with
     | SStart i =>
-        {| c_mem := upd (c_mem st) i (set_state (c_mem st i) InProgress); c_pend := c_pend st;
+        {| c_mem := upd (c_mem st) i (set_state (c_mem st i) InProgress); c_old := c_old st; c_pend := c_pend st;
            c_db := c_db st; c_synced := c_synced st; c_ret := c_ret st; c_ph := upd (c_ph st) i 1%nat |}
     | SCosts i =>
-        {| c_mem := upd (c_mem st) i (set_costs (c_mem st i) (objective (i_vector (c_mem st i))));
+        {| c_mem := upd (c_mem st) i (set_costs (c_mem st i) (objective (i_vector (c_mem st i)))); c_old := c_old st;
            c_pend := c_pend st; c_db := c_db st; c_synced := c_synced st; c_ret := c_ret st;
            c_ph := upd (c_ph st) i 2%nat |}
     | SSigned i =>
         {| c_mem := upd (c_mem st) i
-                        (set_signed (c_mem st i) (signed (i_vector (c_mem st i)) (i_costs (c_mem st i))));
+                        (set_signed (c_mem st i) (signed (i_vector (c_mem st i)) (i_costs (c_mem st i)))); c_old := c_old st;
            c_pend := c_pend st; c_db := c_db st; c_synced := c_synced st; c_ret := c_ret st;
            c_ph := upd (c_ph st) i 3%nat |}
     | SDone i =>
-        {| c_mem := upd (c_mem st) i (set_state (c_mem st i) Evaluated); c_pend := c_pend st;
+        {| c_mem := upd (c_mem st) i (set_state (c_mem st i) Evaluated); c_old := c_old st; c_pend := c_pend st;
            c_db := c_db st; c_synced := c_synced st; c_ret := c_ret st; c_ph := upd (c_ph st) i 4%nat |}
     | SFail i v =>
-        {| c_mem := upd (c_mem st) i (set_state (set_vector (c_mem st i) v) Empty); c_pend := c_pend st;
+        {| c_mem := upd (c_mem st) i (set_state (set_vector (c_mem st i) v) Empty); c_old := c_old st; c_pend := c_pend st;
            c_db := c_db st; c_synced := c_synced st; c_ret := c_ret st; c_ph := upd (c_ph st) i 0%nat |}
     | SCopy j i =>
-        {| c_mem := upd (c_mem st) j (copy_of (c_mem st i) j); c_pend := c_pend st;
+        {| c_mem := upd (c_mem st) j (copy_of (c_mem st i) j); c_old := c_old st; c_pend := c_pend st;
            c_db := c_db st; c_synced := c_synced st; c_ret := c_ret st; c_ph := upd (c_ph st) j 4%nat |}
     | SExec c i =>
-        {| c_mem := c_mem st; c_pend := upd (c_pend st) c (c_pend st c ++ [(i, to_dict (c_mem st i))]);
+        {| c_mem := c_mem st; c_old := c_old st; c_pend := upd (c_pend st) c (c_pend st c ++ [(i, to_dict (c_mem st i))]);
            c_db := c_db st; c_synced := c_synced st; c_ret := c_ret st; c_ph := c_ph st |}
     | SCommit c =>
-        {| c_mem := c_mem st; c_pend := upd (c_pend st) c [];
+        {| c_mem := c_mem st; c_old := c_old st; c_pend := upd (c_pend st) c [];
            c_db := apply_pending (c_pend st c) (c_db st); c_synced := map fst (c_pend st c) ++ c_synced st;
            c_ret := c_ret st; c_ph := c_ph st |}
     | SReturn i =>
-        {| c_mem := c_mem st; c_pend := c_pend st; c_db := c_db st; c_synced := c_synced st;
+        {| c_mem := c_mem st; c_old := c_old st; c_pend := c_pend st; c_db := c_db st; c_synced := c_synced st;
            c_ret := i :: c_ret st; c_ph := c_ph st |}
     | SReopen =>
-        {| c_mem := fun i => match lookup i (c_db st) with Some r => loaded_of_row i r | None => c_mem st i end;
+        {| c_mem := c_mem st;                        (* (no object of the old process is referred to again: c_ph = 0) *)
+           c_old := fun i => option_map (loaded_of_row i) (lookup i (c_db st));
            c_pend := fun _ => [];                    (* the old connections died with their process *)
-           c_db := c_db st; c_synced := c_synced st; c_ret := c_ret st;
-           c_ph := fun i => match lookup i (c_db st) with Some _ => 4%nat | None => c_ph st i end |}
+           c_db := c_db st; c_synced := c_synced st; c_ret := c_ret st; c_ph := fun _ => 0%nat |}
     | SNew i v =>
-        {| c_mem := upd (c_mem st) i (fresh i v); c_pend := c_pend st; c_db := c_db st; c_synced := c_synced st;
-           c_ret := c_ret st; c_ph := upd (c_ph st) i 0%nat |}
+        {| c_mem := upd (c_mem st) i (fresh i v); c_old := c_old st; c_pend := c_pend st; c_db := c_db st;
+           c_synced := c_synced st; c_ret := c_ret st; c_ph := upd (c_ph st) i 0%nat |}
+    | SExecOld c i =>
+        match c_old st i with
+        | Some x =>
+            {| c_mem := c_mem st; c_old := c_old st; c_pend := upd (c_pend st) c (c_pend st c ++ [(i_id x, to_dict x)]);
+               c_db := c_db st; c_synced := c_synced st; c_ret := c_ret st; c_ph := c_ph st |}
+        | None => st
+        end
     end.
 
   Definition run_steps (tr : list step) (st : cstate) : cstate := fold_left do_step tr st.
@@ -149,6 +159,7 @@ Section Crash.
     | SReturn i => existsb (Z.eqb i) (c_synced st)
     | SReopen => true
     | SNew _ _ => true
+    | SExecOld _ i => match c_old st i with Some _ => true | None => false end
     end.
 
   Fixpoint legal (st : cstate) (tr : list step) : bool :=
@@ -173,7 +184,7 @@ Section Crash.
     end.
 
   Definition init_state (designs : list (Z * list jv)) (db0 : store) : cstate :=
-    {| c_mem := fun i => fresh i (vector_of designs i); c_pend := fun _ => []; c_db := db0;
+    {| c_mem := fun i => fresh i (vector_of designs i); c_old := fun _ => None; c_pend := fun _ => []; c_db := db0;
        c_synced := []; c_ret := []; c_ph := fun _ => 0%nat |}.
 
   (* an individual whose stored image is complete: costs and signed costs belong to its vector, and it
